@@ -1011,7 +1011,14 @@ def gen_meta_case(rng, method=None, kind=None, base=None):
         dk = "chain_cluster"
     if dk == "roll" and D < 3:
         D = 3
-    X = gen_float_data(rng, N, D, dk)
+    # more features than samples (methods whose problem size is N; the feature-space pencils of NPE / LPP /
+    # LLTSA are singular there by construction)
+    wide = method in ("pca", "kpca", "mds", "isomap", "la", "dm", "klle", "kltsa") and rng.random() < 0.08
+    if wide:
+        D = rng.choice([32, 40])
+    X = gen_float_data(rng, N, min(D, 6) if wide else D, dk)
+    if wide:
+        X = [row + [0.3 * rng.gauss(0, 1) for _ in range(D - len(row))] for row in X]
     d = rng.choice([1, 2, 2])
     k = rng.randint(5, 8)
     if dk == "chain_cluster":
@@ -1042,6 +1049,20 @@ def gen_meta_case(rng, method=None, kind=None, base=None):
         tr["R"] = R
     if kind in ("trans", "combo"):
         tr["t"] = [rng.choice([-1, 1]) * 1e3 * rng.random() for _ in range(D)]
+        if not kernel and rng.random() < 0.3:
+            # a large common OFFSET relative to the spread (1e5 .. 3e7 times): a formula that expands
+            # (x - m)^2 into x^2 - 2 x m + m^2, or hoists the mean out of a difference, cancels catastrophically
+            # there (error ~ (offset/spread)^2 ulp) while the direct differences lose only offset/spread ulp.
+            # Kernel methods are excluded: their callback values x.y themselves carry that error.
+            big = 10 ** rng.uniform(5, 7.5)
+            tr["t"] = [rng.choice([-1, 1]) * big * (0.5 + 0.5 * rng.random()) for _ in range(D)]
+            tr["offset"] = "large"
+    if kind in ("rot", "trans", "scale") and rng.random() < 0.12:
+        # exact DUPLICATE samples in otherwise generic data (not for the permutation clauses: which of two
+        # coincident samples is the neighbour is the freedom ties leave)
+        for _ in range(rng.randint(1, 3)):
+            X[rng.randrange(N)] = list(X[rng.randrange(N)])
+        tr["duplicates"] = True
     if kind == "scale":
         # half of the scales are powers of two from 2^-40 to 2^40 (the relation is then exact up to the rounding
         # of the method itself), the others are generic factors over six decades
@@ -1051,7 +1072,7 @@ def gen_meta_case(rng, method=None, kind=None, base=None):
     bexp = 0
     if base is None:
         if rng.random() < 0.4:
-            bexp = rng.choice([-1, 1]) * rng.randint(20, 40)
+            bexp = rng.choice([-1, 1]) * (rng.randint(20, 40) if rng.random() < 0.75 else rng.randint(100, 200))
     else:
         bexp = base
     if bexp:
@@ -1149,12 +1170,21 @@ def meta_cmds(c):
     X, Xp = c["X"], meta_image(c)
     nrng = random.Random(c["noise_seed"])
     eps = noise_level(c)
+    # (exact duplicates get the same noise: the probe must not break the ties between coincident samples)
+    seen = {}
+
+    def noise(row):
+        key = tuple(row)
+        if key not in seen:
+            seen[key] = [2 * nrng.random() - 1 for _ in row]
+        return seen[key]
     if c["tr"]["kind"] in ("trans", "combo"):
         # the translated data carry ABSOLUTE rounding noise ~ ulp(|t|): mimic it on the original
         eps *= 2.0 ** c.get("base_exp", 0)
-        Xn = [[v + eps * (2 * nrng.random() - 1) for v in row] for row in X]
+        eps = max(eps, 4.5e-16 * max(abs(v) for v in c["tr"]["t"]))
+        Xn = [[v + eps * u for v, u in zip(row, noise(row))] for row in X]
     else:
-        Xn = [[v * (1 + eps * (2 * nrng.random() - 1)) for v in row] for row in X]
+        Xn = [[v * (1 + eps * u) for v, u in zip(row, noise(row))] for row in X]
     return [emb_cmd(c["params"], c["N"], c["D"], X), emb_cmd(c["params"], c["N"], c["D"], Xp),
             emb_cmd(c["params"], c["N"], c["D"], Xn)]
 
@@ -1302,7 +1332,12 @@ def eval_meta(ctx, exe, cases, stats, hist):
             if rc is not c:
                 w2 = meta_verdict(rc, run_impl(ctx, exe, meta_cmds(rc), timeout=120, env={"OMP_NUM_THREADS": "1"}), {})
                 why = (w2 or why) + " [shrunk from N = %d to N = %d samples]" % (c["N"], rc["N"])
-        ctx.violation(rc, why)
+        # HEAD finding (reported to the coordinator in wave 3, repair fixes/F48): PCA's covariance is computed as
+        # E[x x^T] - mean mean^T and cancels at large offsets; reported under its own signature so that it is a
+        # KNOWN-FINDING while the repair is pending and a plain violation for every other cause
+        sig = SIG_PCA_OFFSET if (c["method"] == "pca" and c["tr"].get("offset") == "large"
+                                 and c["tr"]["kind"] in ("trans", "combo") and "not " in why) else None
+        ctx.violation(rc, why, signature=sig)
     return evals
 
 
@@ -1417,6 +1452,7 @@ def eval_nbr(ctx, exe, cases, stats, hist):
 # true for {0,1,2}^D lattices: their tight triples are p, p+v, p+2v and fl(sqrt(4x)) = 2 fl(sqrt x)); brute force
 # and the transformations that keep the table bit-identical need no such condition.
 SIG_VPTREE_TIES = "C12-vptree-tied-neighbours-depend-on-rand-state"
+SIG_PCA_OFFSET = "C12-pca-expanded-covariance-large-offset"
 TIED_SCALES = [Fraction(3), Fraction(5), Fraction(7), Fraction(10), Fraction(6), Fraction(12), Fraction(11), Fraction(9),
                Fraction(100), Fraction(3, 2), Fraction(3, 8), Fraction(5, 16), Fraction(3, 4), Fraction(2), Fraction(1, 2),
                Fraction(1, 8), Fraction(13, 8), Fraction(1000)]
@@ -2198,8 +2234,15 @@ def run(ctx):
         hist[key] = hist.get(key, 0) + 1
     for c in meta:
         be = c.get("base_exp", 0)
-        key = "meta-base/" + ("2^0" if be == 0 else ("2^-40..-20" if be < 0 else "2^20..40"))
+        key = "meta-base/" + ("2^0" if be == 0 else ("2^-200..-100" if be <= -100 else ("2^100..200" if be >= 100 else (
+            "2^-40..-20" if be < 0 else "2^20..40"))))
         hist[key] = hist.get(key, 0) + 1
+        if c["tr"].get("offset"):
+            hist["meta-offset/large(1e5..3e7 x spread)"] = hist.get("meta-offset/large(1e5..3e7 x spread)", 0) + 1
+        if c["tr"].get("duplicates"):
+            hist["meta-data/exact-duplicates"] = hist.get("meta-data/exact-duplicates", 0) + 1
+        if c["D"] > c["N"]:
+            hist["meta-data/more-features-than-samples"] = hist.get("meta-data/more-features-than-samples", 0) + 1
         if c["tr"]["kind"] == "scale":
             e = math.log2(abs(c["tr"]["c"]))
             key = "meta-scale/" + ("c<2^-20" if e < -20 else ("c>2^20" if e > 20 else "2^-20..20"))
